@@ -11,7 +11,9 @@ import (
 type OSProfile struct {
 	// PhaseObjectDrift lets the intruder delete delegated phase objects (they are re-created with a new UID).
 	// Recreate: a deleted ObjectSet may come back under the same name and be deleted again.
-	Recreate         bool
+	Recreate bool
+	// EmptyProbeEntry allows an availabilityProbes entry without probes (status freshness only).
+	EmptyProbeEntry  bool
 	PhaseObjectDrift bool
 	// SliceDrift lets the intruder delete ObjectSlices (sliced scenarios).
 	SliceDrift   bool
@@ -445,6 +447,12 @@ func genTemplateSpec(w *World, g *OSGen, prof OSProfile, i int) map[string]any {
 	// probes
 	var probes []any
 	for pi, p := range probePool {
+		if pl, _ := p["probes"].([]any); len(pl) == 0 && !prof.EmptyProbeEntry {
+			// an entry without probes passes on an object that has no status yet: whether a phase
+			// gets through then depends on who is faster, the workload controller or PKO - fine
+			// for per-pass rules, useless for differential end-state comparisons
+			continue
+		}
 		if s.Chance(2, 3, "probe-"+strconv.Itoa(pi)) {
 			probes = append(probes, store.Copy(p))
 		}
